@@ -103,3 +103,16 @@ Example C20_monitor_rejects :
   ok_C20 [OSnap (mkM 0 0 0 0 0 0 1 0) true] = false /\
   ok_C20 [OWire 0 0 KSyncW; OCompleted 0 KSyncW RTimer; OSnap (mkM 1 0 0 1 0 0 0 0) true] = true.
 Proof. vm_compute. repeat split. Qed.
+
+(** Overlapping reconnect loops (loop A still inside tr.Start of generation 1 when generation 1
+    drops and loop B starts): the gauge counts both, stays positive when A exits while B runs,
+    and is zero once B has exited — a gauge kept as a flag would read 0 after A's exit. *)
+Example C20_overlapping_loops :
+  let pre := [Open; TCPUp; Select; Drop; LoopSpawn; Teardown; Join 0; LoopBegin; Publish; TCPUp; Select;
+              Drop; LoopSpawn; Teardown; LoopBegin] in
+  m_retry (mx (fst (run init pre))) = 2 /\
+  m_retry (mx (fst (run init (pre ++ [LoopEnd true])))) = 1 /\
+  lrun (fst (run init (pre ++ [LoopEnd true]))) = 1%nat /\
+  m_retry (mx (fst (run init (pre ++ [LoopEnd true; Join 1; Publish; TCPUp; Select; LoopEnd true])))) = 0 /\
+  m_reconn (mx (fst (run init (pre ++ [LoopEnd true; Join 1; Publish; TCPUp; Select; LoopEnd true])))) = 2.
+Proof. vm_compute. repeat split. Qed.
